@@ -193,6 +193,23 @@ def run_one(ck, prog):
                   detail=f"sockets are created/accepted with flags {fl}; SOCK_NONBLOCK ({nb}) and SOCK_CLOEXEC ({ce}) are both required (the try/timeout logic assumes non-blocking descriptors)")
     ck.floor("C16.2", "socket/accept sites in net", n_sock, 8)
 
+    # ---- C16.3 the Duration -> TimeSpec conversion keeps the whole limit (seconds and the full sub-second part) --------------------------
+    cv = [fn for p, fn in prog.fns.items() if p.endswith("TimeSpec as core::convert::TryFrom<core::time::Duration>>::try_from")]
+    if ck.anchor("C16.3", "TimeSpec::try_from(Duration)", cv or None):
+        cc = prog.ctx(cv[0])
+        aggs = []
+        for b in cv[0]["blocks"]:
+            for i, st in enumerate(b["stmts"]):
+                if st["k"] == "assign" and st["rv"]["k"] == "agg" and (st["rv"].get("adt") or "").endswith("__kernel_timespec"):
+                    aggs.append(dict(zip(st["rv"]["fields"], [cc.prov.operand(o, (b["id"], i)) for o in st["rv"]["ops"]])))
+        ck.ob("C16.3", "conversion|anchor", len(aggs) == 1, fn=cv[0]["path"], detail=f"__kernel_timespec values built: {len(aggs)}")
+        for d in aggs:
+            arith = lambda e: mentions(e, cc.prov, lambda z: z[0] == "bin")
+            ok = mentions(d.get("tv_sec"), cc.prov, lambda z: z[0] == "call" and (z[1] or "").endswith("Duration::as_secs")) and not arith(d.get("tv_sec")) and \
+                mentions(d.get("tv_nsec"), cc.prov, lambda z: z[0] == "call" and (z[1] or "").endswith("Duration::subsec_nanos")) and not arith(d.get("tv_nsec"))
+            ck.ob("C16.3", "conversion|whole-duration-kept", ok, fn=cv[0]["path"],
+                  detail=f"tv_sec must be the Duration's as_secs() and tv_nsec its subsec_nanos(), unmodified (found tv_sec={show(d.get('tv_sec'))[:80]}, tv_nsec={show(d.get('tv_nsec'))[:80]}): a shortened limit reports Timeout early")
+
     # ---- C16.3 Timeout only from an expired poll ---------------------------------------------------------------------------------
     n_to = 0
     for p, fn in sorted(prog.fns.items()):
@@ -220,7 +237,8 @@ def run_one(ck, prog):
         for pb in polls:
             a = ctx.args(pb)
             # timeout argument: as_ref of Option<TimeSpec> built by one try_from of the Duration parameter
-            conv = [bb for bb, t in cfg.calls(lambda t: (t.get("callee") or "").endswith("TryFrom::try_from") or (t.get("resolved") or "").endswith("TimeSpec as core::convert::TryFrom<core::time::Duration>>::try_from"))]
+            # (the library's own whole-Duration conversion: a hand-made TimeSpec may drop part of the limit and time out early)
+            conv = [bb for bb, t in cfg.calls(lambda t: (t.get("resolved") or t.get("callee") or "").endswith(("TimeSpec as core::convert::TryFrom<core::time::Duration>>::try_from", "Into<rusl::platform::compat::time::TimeSpec>>::try_into")))]
             dur_ok = len(conv) == 1 and mentions(a[1], ctx.prov, lambda z: z[0] == "call" and z[3] == conv[0])
             ck.ob("C16.3", f"{p}|timeout-converted-once", dur_ok, fn=p, site=ctx.site(pb), detail="the caller's Duration must reach ppoll as the TimeSpec converted from it (exactly one conversion, unmodified)")
             none_ok = mentions(a[1], ctx.prov, lambda z: z[0] == "agg" and z[2] == "None")
